@@ -18,6 +18,7 @@ import (
 	"sync/atomic"
 	"syscall"
 	"time"
+	"verif/shim/globals"
 )
 
 // Prop describes one property check.
@@ -35,6 +36,9 @@ type Prop struct {
 	// Budget is the wall-clock budget after which no further units are started
 	// (the run then reports exhaustive:false and still exits 0).
 	Budget func(tier string) time.Duration
+	// SearchUnit reports whether a unit is a state search holding its visited set in memory: an
+	// out-of-memory death of such a unit is the search's budget (unit reported incomplete), not a finding.
+	SearchUnit func(unit string) bool
 	// MemKB is the address-space limit of a worker (ulimit -v), default 4 GiB.
 	MemKB int
 	// MemKBUnit, if set and non-zero for a unit, overrides MemKB for that unit (a unit that has to
@@ -325,7 +329,21 @@ func WorkerMain(id, tier, unit, statePath, outPath string, skip []uint64, only i
 			f.Close()
 		}
 	}
+	before := globals.Snapshot()
 	p.Run(c, tier, unit)
+	// the library's package-level variables (exported tables, OIDs, GUIDs, error values) after the
+	// unit are what they were before it; the handles a caller configures are not judged
+	if diff := globals.Diff(before, globals.Snapshot()); len(diff) > 0 {
+		var changed []string
+		for _, k := range diff {
+			if !callerConfigured[k] {
+				changed = append(changed, k)
+			}
+		}
+		if len(changed) > 0 {
+			c.Violation(id+" an operation changed package-level state of the library that later calls depend on: "+strings.Join(changed, ", "), map[string]any{"unit": unit, "variables": changed})
+		}
+	}
 	c.res.Complete = !c.expired
 	c.res.Nontrivial = uint64(len(c.nt))
 	b, err := json.Marshal(&c.res)
@@ -344,4 +362,10 @@ func WorkerMain(id, tier, unit, statePath, outPath string, skip []uint64, only i
 	os.WriteFile(outPath+".nt", nb, 0o600)
 	os.Rename(outPath+".tmp", outPath)
 	return 0
+}
+
+// callerConfigured: package-level variables that exist to be set by the caller (the harness sets them).
+var callerConfigured = map[string]bool{
+	"github.com/foxboron/go-uefi/efi/fs.Fs":              true,
+	"github.com/foxboron/go-uefi/efi/attributes.Efivars": true,
 }
